@@ -1,6 +1,6 @@
 (* C18 - Masking transform equals RFC 6455 byte-wise XOR for all lengths and keys.
    Only statements, each closed by an existing lemma. *)
-From Gws Require Import Lib.Base Model.Mask Spec.MaskSpec Proofs.MaskProofs.
+From Gws Require Import Lib.Base Model.Mask Spec.MaskSpec Proofs.MaskProofs Gen.Funcs Proofs.GenFuncsProofs.
 Local Open Scope N_scope.
 
 (* the word-unrolled implementation never panics on a 4-byte key and equals the RFC transform,
@@ -45,9 +45,29 @@ Example C18_nonvacuous :
   /\ mask_impl key b = Some (mask_spec key b) /\ mask_spec key b <> b.
 Proof. vm_compute. repeat split; try reflexivity. discriminate. Qed.
 
+(* Tie to the source: the model of MaskXOR rebuilt on the pieces REGENERATED from internal/utils.go on this run - the
+   64-bit key expression `uint64(maskKey)<<32 + uint64(maskKey)`, the conditions of the three loops (`len(b) >= 64`,
+   `len(b) >= 8`, `i < n`) and the key index `i & 3` of the byte loop - is the model the theorems above are about.
+   (The word loads / stores and slice bounds inside the loops are hand-transcribed and tied by the correspondence run.) *)
+Theorem C18_mask_from_source : forall key b, wf_bytes key -> mask_impl_src key b = mask_impl key b.
+Proof. exact mask_from_source. Qed.
+
+Theorem C18_mask_pieces_from_source : forall m i len n,
+  ((m < 2 ^ 32)%N -> gf_internal_MaskXOR_key64 (Z.of_N m) = Z.of_N (key64 m))
+  /\ gf_internal_MaskXOR_idx (Z.of_N i) = Z.of_N (N.land i 3) /\ gf_internal_MaskByByte_idx (Z.of_N i) = Z.of_N (N.land i 3)
+  /\ gf_internal_MaskXOR_loop1 (Z.of_N len) = (N.of_nat 64 <=? len)%N
+  /\ gf_internal_MaskXOR_loop2 (Z.of_N len) = (N.of_nat 8 <=? len)%N
+  /\ gf_internal_MaskXOR_loop3 (Z.of_N i) (Z.of_N n) = (i <? n)%N.
+Proof.
+  intros m i len n. split; [apply gen_key64_is|]. destruct (gen_mask_idx_is i) as [H1 H2].
+  destruct (gen_mask_loops_are len i n) as (L1 & L2 & L3 & _). auto.
+Qed.
+
 Print Assumptions C18_impl_is_xor.
 Print Assumptions C18_pointwise.
 Print Assumptions C18_involutive.
 Print Assumptions C18_length.
 Print Assumptions C18_in_place.
 Print Assumptions C18_unmask_roundtrip.
+Print Assumptions C18_mask_from_source.
+Print Assumptions C18_mask_pieces_from_source.
